@@ -329,6 +329,16 @@ func (c10) Gen(tier string, seed int64) []fw.Unit {
 	for _, ru := range []rune{0x7e, 0x7f, 0x80, 0x81, 0xf0, 0xf1, 0xf2, 0xf3, 0xf4, 0xf5, 0xff, 0x100, 0x7ff, 0x800, 0xffff, 0x10000, 0x10ffff} {
 		hostile = append(hostile, string(ru), "A"+string(ru), string(ru)+"1")
 	}
+	for _, pre := range []string{"ñ", "ñò", "ñabc", "12ñ34ñ", "ôóòñ", "ñ0000"} {
+		for _, bad := range []string{"ä", "\xff", "€", "\xc3", "é", "𝟙"} {
+			hostile = append(hostile, pre+bad, pre+bad+"x", pre+"A"+bad, bad+pre)
+		}
+	}
+	for _, l := range "ABCDEFXYZabcxyz" {
+		for _, n := range []int{7, 8, 12, 13} {
+			hostile = append(hostile, strings.Repeat(string(l), n), "1234567890123"[:n-1]+string(l), string(l)+"1234567890123"[:n-1], "12"+string(l)+"4567890123"[:n-3]+string(l))
+		}
+	}
 	for _, h := range hostile {
 		hb := []byte(h)
 		add("hostile", Req{Fam: "codabar", S: hb})
@@ -380,6 +390,12 @@ func (c10) Gen(tier string, seed int64) []fw.Unit {
 		}
 		add("foreign-digits", Req{Fam: "pdf417", S: hb, I: []int64{int64(r.Intn(9))}})
 		add("foreign-digits", Req{Fam: "aztec", S: hb, I: []int64{33, 0}})
+	}
+	// well-known structured payloads that an encoder might be tempted to treat specially
+	for _, sp := range structuredPayloads() {
+		for _, q := range []Req{{Fam: "datamatrix", S: sp}, {Fam: "qr", S: sp, I: []int64{1, 0}}, {Fam: "qr", S: sp, I: []int64{2, 3}}, {Fam: "pdf417", S: sp, I: []int64{3}}, {Fam: "aztec", S: sp, I: []int64{33, 0}}, {Fam: "code128", S: sp}} {
+			add("structured", q)
+		}
 	}
 	// all 256 PDF417 level bytes
 	for l := int64(0); l < 256; l++ {
@@ -578,6 +594,9 @@ func (p c10) Exec(c *fw.Ctx, u *fw.Unit) {
 	accepted := wellFormed(c, entry, inner, &o)
 	if !accepted && o.err == nil {
 		return // contract violation already reported
+	}
+	if !accepted {
+		retainErr(c, req.Fam, o.err, inner)
 	}
 	exp, why := expectation(req)
 	switch exp {
